@@ -144,6 +144,7 @@ inductive Obs
   | count (x : Int)
   | reversed | copy | listify
   | copyGet (i : Int)
+  | nop            -- creating (and keeping) a copy or an iterator: nothing is pulled yet
   deriving Repr
 
 def LL.observe (l : LL) : Obs → Ans × LL
@@ -162,6 +163,7 @@ def LL.observe (l : LL) : Obs → Ans × LL
       -- the copy is a view: it pulls through the parent's iterator only as far as it needs
       let l' := if i < 0 then l.forceAll else l.pullN (i.toNat + 1 - l.gen.length)
       ((LL.fresh l.src).getItem i |>.1, l')
+  | .nop => (.int 0, l)
 
 /-- the same observation on the plain list (wrap-around for out-of-range non-negative indices, as documented) -/
 def oracle (src : List Int) : Obs → Ans
@@ -174,6 +176,7 @@ def oracle (src : List Int) : Obs → Ans
   | .eq other => .int (if src = other then 1 else 0)
   | .count x => .int (src.count x)
   | .reversed => .list src.reverse
+  | .nop => .int 0
 
 def runObs : LL → List Obs → List Ans × LL
   | l, [] => ([], l)
